@@ -144,6 +144,34 @@ PROPS["C11"] = {
     "assumptions": ["only forward clock steps", "the client is a well-behaved HTTP client (cookie values pass through net/http's Set-Cookie writer and Cookie parser)"],
 }
 
+BUF_NOTE = ("trusted: rapid; the multibuf dependency runs as a scratch copy whose temp-file creation and file writes are routed through tools/simfs (no other change); "
+            "no concurrency in these checks (the buffer has no shared state)")
+BUF_RULE = ("one evaluation = one simulated run of 1-4 exchanges through the real buffer.Buffer: drawn memory thresholds (1 B-64 KiB) and maxima (0 = unlimited, below/equal/above the threshold) for request and response, "
+            "optional retry expression generated from the grammar, request bodies sized around the thresholds (multi-megabyte in the thorough tier), declared or chunked framing, client body reader with drawn short reads, "
+            "per-attempt handler scripts (bytes read, in-place rewrite of the request, status incl. none, headers, body in up to 20 writes), and in a quarter of the exchanges one injected fault "
+            "(body reader error / net error / timeout at a drawn offset, with and without cancelled context; temp dir missing; temp-file creation error; ENOSPC after a drawn number of bytes, with and without torn write); ")
+PROPS["C06"] = {
+    "harness": "bufsim", "test": "TestC06", "quick_s": 30, "thorough_s": 900, "batch": 50, "multibuf": True,
+    "rule": BUF_RULE + "oracle = on every invocation method, URL, headers, declared length, no chunked encoding, body bytes from offset 0 to EOF at the true length; after a reader fault an error status and no invocation; non-trivial = a retry or a spill to disk happened; distinct = hash of (attempts, status, sizes)",
+    "technique": "deterministic simulation: seeded request/handler scripts with injected reader, context and disk faults at drawn byte offsets; per-attempt byte/field equality oracle",
+    "level_text": "seeded search over body sizes, framings, thresholds, handler behaviours and fault positions; sampled, not exhaustive; failures minimised and replayable",
+    "level_note": BUF_NOTE, "assumptions": ["request bodies up to 3 MiB"],
+}
+PROPS["C07"] = {
+    "harness": "bufsim", "test": "TestC07", "quick_s": 30, "thorough_s": 900, "batch": 50, "multibuf": True,
+    "rule": BUF_RULE + "oracle = own evaluator of the retry expression decides the number of invocations (cap 11); the strict client recorder must see exactly one WriteHeader with the final attempt's status (200 if none), its headers and exactly its attempt-tagged body bytes; non-trivial = at least one retry; distinct = hash of (attempts, status, sizes)",
+    "technique": "deterministic simulation: generated retry programs and per-attempt response scripts against the real retry loop; independent expression evaluator and attempt-tagged payload oracle at a strict net/http-like client writer",
+    "level_text": "seeded search over retry expressions, status sequences, header sets, body sizes and write chunkings; sampled, not exhaustive",
+    "level_note": BUF_NOTE + "; an attempt that chose no status may be seen by the retry expression as 200 or as 'no code' (both invocation counts accepted)", "assumptions": ["handlers write no body for HEAD/204/304 in this check (C15 covers those that do)"],
+}
+PROPS["C15"] = {
+    "harness": "bufsim", "test": "TestC15", "quick_s": 30, "thorough_s": 900, "batch": 50, "multibuf": True,
+    "rule": BUF_RULE + "plus handlers that write a body for HEAD/204/304, Content-Length: 0 and gRPC-status responses; oracle = 413 and no invocation for a request over the maximum, error status and none of its tagged bytes for a response over the maximum, and the process temp dir listed empty after every exchange; non-trivial = a spill or an over-limit body occurred; distinct = hash of (attempts, status, sizes)",
+    "technique": "deterministic simulation: seeded size/threshold/fault scenarios over a simulated disk (temp dir listing as the durable-state oracle, ENOSPC/torn-write/creation faults from the run's seed)",
+    "level_text": "seeded search over sizes around both limits, framings, response kinds, retries and disk faults; sampled, not exhaustive",
+    "level_note": BUF_NOTE, "assumptions": ["temp files are recognised by multibuf's 'temp-multibuf-' prefix in the process's private TMPDIR"],
+}
+
 PENDING = "check not built yet in this session (planned, see DESIGN.md section 4); not claimed until its harness exists"
 NOT_APPLICABLE = {pid: PENDING for pid in ["C%02d" % i for i in range(1, 21)]}
 NOT_APPLICABLE["C19"] = ("pure function of one request's RemoteAddr/Host/header to a token: no schedule, clock, fault, I/O or multi-party behaviour for a "
